@@ -1,0 +1,46 @@
+//go:build verif
+
+// Contracts for the verif build tag: comment-only, read by /verif/engine (govc).
+package dns64
+
+//@ # ---- C20: RFC 6052 section 2.2 embedding and its inverse
+//@ pred okBits(b int) := b == 32 || b == 40 || b == 48 || b == 56 || b == 64 || b == 96
+//@ pred validPfx(p *net.IPNet) := p != nil && len(p.IP) == 16 && len(p.Mask) == 16 && okBits(maskOnes(p.Mask)) && (maskOnes(p.Mask) == 96 ==> p.IP[8] == 0)
+//@ # position of IPv4 octet k inside the 16-octet address for each prefix length
+//@ spec v4pos(bits int, k int) int := ite(bits == 32, 4+k, ite(bits == 40, ite(k < 3, 5+k, 9), ite(bits == 48, ite(k < 2, 6+k, 7+k), ite(bits == 56, ite(k < 1, 7, 8+k), ite(bits == 64, 9+k, 12+k)))))
+//@ pred isV4pos(bits int, i int) := i == v4pos(bits, 0) || i == v4pos(bits, 1) || i == v4pos(bits, 2) || i == v4pos(bits, 3)
+//@ pred embedded(out []byte, pip []byte, v []byte, bits int) := len(out) == 16
+//@    && (forall i int :: {out[i]} 0 <= i && i < bits/8 ==> out[i] == pip[i])
+//@    && out[v4pos(bits, 0)] == v[0] && out[v4pos(bits, 1)] == v[1] && out[v4pos(bits, 2)] == v[2] && out[v4pos(bits, 3)] == v[3]
+//@    && (forall i int :: {out[i]} bits/8 <= i && i < 16 && !isV4pos(bits, i) ==> out[i] == 0)
+//@
+//@ func bytesAllZero
+//@   modifies nothing
+//@   ensures result <==> forall i int :: {b[i]} 0 <= i && i < len(b) ==> b[i] == 0
+//@   loop 1 invariant 0 <= rangeidx && rangeidx <= len(b)
+//@   loop 1 invariant forall a int :: {b[a]} 0 <= a && a < rangeidx ==> b[a] == 0
+//@
+//@ func hexNibble
+//@   modifies nothing
+//@   ensures result1 <==> (c >= '0' && c <= '9') || (c >= 'a' && c <= 'f')
+//@   ensures result1 && c <= '9' ==> result0 == c - '0'
+//@   ensures result1 && c >= 'a' ==> result0 == c - 'a' + 10
+//@   ensures result1 ==> result0 < 16
+//@
+//@ func embedIPv4
+//@   requires validPfx(prefix) && len(v4) == 4
+//@   ensures len(result) == 16
+//@   ensures forall i int :: {result[i]} 0 <= i && i < maskOnes(prefix.Mask)/8 ==> result[i] == prefix.IP[i]
+//@   ensures result[v4pos(maskOnes(prefix.Mask), 0)] == v4[0]
+//@   ensures result[v4pos(maskOnes(prefix.Mask), 3)] == v4[3]
+//@   ensures forall i int :: {result[i]} maskOnes(prefix.Mask)/8 <= i && i < 16 && !isV4pos(maskOnes(prefix.Mask), i) ==> result[i] == 0
+//@   ensures embedded(result, prefix.IP, v4, maskOnes(prefix.Mask))
+//@   ensures result[8] == 0
+//@
+//@ func extractIPv4
+//@   requires validPfx(prefix) && len(addr) == 16 && !v4mapped16(addr) && !v4mapped16(prefix.IP)
+//@   uses valid_prefix_bits
+//@   ensures result1 ==> len(result0) == 4 && embedded(addr, prefix.IP, result0, maskOnes(prefix.Mask))
+//@   ensures result1 && maskOnes(prefix.Mask) < 96 ==> addr[8] == 0
+//@
+//@ axiom valid_prefix_bits: forall b int :: {validPrefixBits[b]} validPrefixBits[b] <==> okBits(b)
